@@ -12,7 +12,7 @@ from .reqkit import Scenario, build, install, frame
 
 MANIFEST_ENTRY = {
     'category': 'proof',
-    'text': "require (the real NodeRequire.evaluate with an abstract file system, parser and module body) leaves the module load stack exactly as it found it on every exit - success, module not found, syntax error in the module, error while the module body runs, cycle - and adds a module to the cache only after its body ran to completion; a cycle is rejected before any other effect; Interpreter.interpret evaluates in the one persistent session environment (or in the caller's environment re-parented below it and restored on every exit) and parses before it evaluates, so a syntax error changes nothing; definitions are never undone (C03: put/set only add or overwrite); each interpreter allocates its own base frame, module table and load stack and no function under contract writes a class attribute or module global; sequences of session commands by bounded enumeration on real interpreters; get_base_environment returns a root frame allocated by the call with its own empty module table and load stack (a memoising decorator makes the result a shared object and fails this); the bounded histories are compared, call by call, with a reference session written from the property (names and values in scope, kind of outcome)",
+    'text': "require (the real NodeRequire.evaluate with an abstract file system, parser and module body) leaves the module load stack exactly as it found it on every exit - success, module not found, syntax error in the module, error while the module body runs, cycle - and adds a module to the cache only after its body ran to completion; a cycle is rejected before any other effect; Interpreter.interpret evaluates in the one persistent session environment (or in the caller's environment re-parented below it and restored on every exit) and parses before it evaluates, so a syntax error changes nothing; definitions are never undone (C03: put/set only add or overwrite); each interpreter allocates its own base frame, module table and load stack and no function under contract writes a class attribute or module global; sequences of session commands by bounded enumeration on real interpreters; get_base_environment returns a root frame allocated by the call with its own empty module table and load stack (a memoising decorator makes the result a shared object and fails this); the bounded histories are compared, call by call, with a reference session written from the property (names and values in scope, kind of outcome); a loop left by an error leaves the scope as it found it (units of the for node shared with C04)",
     'note': 'file system and pkgutil abstract (data, None or FileNotFoundError); module bodies abstract; the session-level statement is a lemma over these contracts plus C03, cross-checked by exhaustive command sequences up to length 4/5 (bounded)',
     'technique': 'deductive verification: pyvc VCs from the real AST over all exits (normal and exceptional) + z3; bounded command-sequence enumeration as cross-check',
 }
